@@ -17,6 +17,9 @@ Qed.
 
 Theorem body_gate : operator_validated_before_use = true /\ body_end_validated = true /\ locals_validated_before_use = true.
 Proof. repeat split; reflexivity. Qed.
+(* reader and validator are both configured with the feature set of the configuration *)
+Theorem features_reach_reader_and_validator : reader_uses_configured_features = true /\ validator_uses_configured_features = true.
+Proof. split; reflexivity. Qed.
 
 Section G.
   Variables (payload vstate : Type) (kind_of : payload -> payload_kind) (vstep : vstate -> payload -> option vstate) (consume_ok : payload -> bool).
